@@ -251,9 +251,17 @@ impl SpillPoolSink {
 
         // Append the batch
         if let Some(ref mut writer) = file_shared.writer {
-            writer.append_batch(batch)?;
-            // make sure we flush the writer for readers
-            writer.flush()?;
+            let appended = writer
+                .append_batch(batch)
+                // make sure we flush the writer for readers
+                .and_then(|_| writer.flush());
+            if let Err(e) = appended {
+                // This file is not put back into `open_write_files`, so nobody
+                // will ever finish it: seal it now, otherwise the reader would
+                // wait forever for more data or a finish signal.
+                Self::abandon_file(&mut file_shared);
+                return Err(e);
+            }
             file_shared.batches_written += 1;
             file_shared.estimated_size += batch_size;
         }
@@ -265,8 +273,11 @@ impl SpillPoolSink {
 
         if max_file_size_reached {
             // Finish the IPC writer
-            if let Some(mut writer) = file_shared.writer.take() {
-                writer.finish()?;
+            if let Some(mut writer) = file_shared.writer.take()
+                && let Err(e) = writer.finish()
+            {
+                Self::abandon_file(&mut file_shared);
+                return Err(e);
             }
             // Mark as finished so readers know not to wait for more data
             file_shared.writer_finished = true;
@@ -284,6 +295,17 @@ impl SpillPoolSink {
         }
 
         Ok(())
+    }
+
+    /// Seals a file after a failed write: no further batches will be written to
+    /// it, and a reader waiting on it is woken so it can move on.
+    fn abandon_file(file_shared: &mut ActiveSpillFileShared) {
+        if let Some(mut writer) = file_shared.writer.take() {
+            // Best effort; the push already failed and reports that error.
+            let _ = writer.finish();
+        }
+        file_shared.writer_finished = true;
+        file_shared.wake();
     }
 }
 
